@@ -25,3 +25,4 @@ open Lungo.C10
 #print axioms and_or_agree
 #print axioms nor_agrees
 #print axioms match_agrees_core_partial
+#print axioms match_total_on_wellformed
